@@ -690,10 +690,17 @@ fn sql_quote(s: &str) -> String {
 pub fn c12(rng: &mut Rng, thorough: bool, idx: u64) -> Spec {
     // idx % 4 == 3: hostile values (quotes, backslashes, non-ASCII); the rest: plain values
     let hostile = idx % 4 == 3;
+    // idx % 8 == 5: session mode with an idle-in-transaction timeout: a client that sat in an open
+    // transaction for too long loses its server, and gets its parameters back with the next one
+    let session_timeout = idx % 8 == 5;
     let nclients = rng.range(2, if thorough { 5 } else { 4 }) as u32;
-    let pool_size = rng.range(1, 2) as u32;
-    let mut cfg = single_pool("transaction", pool_size, 0);
+    let pool_size = if session_timeout { nclients } else { rng.range(1, 2) as u32 };
+    let mut cfg = single_pool(if session_timeout { "session" } else { "transaction" }, pool_size, 0);
     cfg.set("connect_timeout", 60000);
+    let idle_timeout = rng.range(80, 200);
+    if session_timeout {
+        cfg.set("idle_client_in_transaction_timeout", idle_timeout);
+    }
     if rng.chance(0.3) {
         cfg.set("healthcheck_delay", 0);
     }
@@ -746,6 +753,14 @@ pub fn c12(rng: &mut Rng, thorough: bool, idx: u64) -> Spec {
                     let t = p.tag();
                     p.simple(format!("COMMIT /* {} */", t));
                 }
+                4 if session_timeout => {
+                    // sits in an open transaction until the pooler takes the server away
+                    let t = p.tag();
+                    p.simple(format!("BEGIN /* {} */", t));
+                    let sql = p.select(1, 0, "");
+                    p.simple(sql);
+                    p.steps.push(Step::Hold { until: None, max_ms: idle_timeout + 150 });
+                }
                 _ => {
                     let sql = p.select(1, 0, "");
                     p.simple(sql);
@@ -763,10 +778,11 @@ pub fn c12(rng: &mut Rng, thorough: bool, idx: u64) -> Spec {
         c.startup_params = sp;
         clients.push(c);
     }
-    let net = if rng.chance(0.5) { net_calm() } else { net_swarm(rng) };
+    // (the timeout variant on the calm network: the timeout must only fire where the program idles)
+    let net = if session_timeout || rng.chance(0.5) { net_calm() } else { net_swarm(rng) };
     let mut spec = Spec { config_toml: cfg.render(), hosts: cfg.hosts(), net, clients, end: EndSpec { deadline_ms: 900_000, calm_ms: 100 }, ..Default::default() };
     spec.params = params_from(&cfg);
-    spec.family = if hostile { "params_hostile_values".into() } else { "params".into() };
+    spec.family = if session_timeout { "params/session_idle_in_transaction_timeout".into() } else if hostile { "params_hostile_values".into() } else { "params".into() };
     spec.oracles = vec!["c12_params".into(), "liveness".into()];
     spec
 }
